@@ -1,7 +1,11 @@
-(* C29: the Execute loop of floodsub (Pubsub/Sub.v, part 3): once the last
-   local subscription of a channel is released, at quiescence no executing
+(* C29: the Execute loop of floodsub, proofs in the fine-grained two-region
+   transition system Pubsub/LoopFine.v (the loop body as it was before /repo
+   commit 4585b8b; the current one-region body is the sub-system in which
+   nothing interleaves between LInit and LSweep, see Proofs29Pass.v): once the
+   last local subscription of a channel is released, at quiescence no executing
    peer stream is left with Subscribe=true for it. *)
-From Bifrost Require Import Lib.Base Pubsub.Sub.
+From Bifrost Require Import Lib.Base Pubsub.Sub Pubsub.LoopFine.
+Import Fine.
 
 (* ---------- association lists ---------- *)
 
